@@ -54,7 +54,24 @@ fn check_install(g: &PatchGuard, src_off: usize, jit_off: Option<usize>, jit_add
             None => false,
         };
         let changed = os::MEM[i] != SNAPSHOT[i];
+        // publication order: index of the last flush (= end of a write) that covers the first trampoline
+        // byte / the first entry byte
+        let mut f_tramp = usize::MAX;
+        let mut f_entry = usize::MAX;
+        let mut k = 0;
+        while k < os::MAXFLUSH {
+            if k < os::N_FLUSH {
+                if os::FLUSH_START[k] <= jit_addr && jit_addr < os::FLUSH_END[k] {
+                    f_tramp = k;
+                }
+                if os::FLUSH_START[k] <= base + src_off && base + src_off < os::FLUSH_END[k] {
+                    f_entry = k;
+                }
+            }
+            k += 1;
+        }
         crate::obligations! {
+            (f_tramp != usize::MAX && f_entry != usize::MAX && f_tramp < f_entry) => "OBL:C01.order.tramp-before-entry: the trampoline is completely written (and flushed) before the entry is redirected to it, so a call arriving during installation never runs an unfinished trampoline",
             size_ok => "OBL:C03.entry-slot: at most the 16-byte entry slot is overwritten",
             in_arena => "OBL:C03.entry-in-arena: the entry patch stays inside the function's memory",
             (in_arena && x86_lands(&os::MEM[src_off..src_off + if in_arena { n } else { 0 }], base + src_off) == Some(jit_addr)) => "OBL:C01.install.entry: the bytes at the function entry decode to a jump landing exactly on the trampoline",
